@@ -116,6 +116,10 @@ def check(ctx, as_premise=False):
             if remlen is None:
                 ctx.ob("S2", "%s has a remaining-length field" % name, False, where=w, function=encfn, construct="mqtt.pdu.%s/remlen" % name,
                        msg="no encodeLength() segment in the packet")
+            elif remlen["v"][0] == "constlen":
+                ctx.ob("S2", "%s constant remaining length = size of the fixed-size fields that follow" % name, remlen["v"][1] == remlen["v"][2], where=w,
+                       function=encfn, construct="mqtt.pdu.%s/remlen" % name,
+                       msg="remaining length is written as the constant %d; the fields that follow take %d bytes" % (remlen["v"][1], remlen["v"][2]))
             else:
                 ok1 = len(hdr) == 1
                 ctx.ob("S2", "%s remaining length directly follows the first byte" % name, ok1, where=w, function=encfn,
